@@ -5,7 +5,7 @@ import ast
 
 from .. import AnalysisError, flow, states, cmp, rules
 from ..index import enclosing_func
-from ..loader import parent
+from ..loader import parent, dotted
 from ..report import Ctx
 
 IT = "nrel/hive/util/iterators.py"
@@ -43,6 +43,8 @@ def run(ctx: Ctx):
     ctx.attempt(adds_once, ctx)
     ctx.attempt(prices, ctx)
     ctx.attempt(key_provenance, ctx)
+    ctx.attempt(h3_guard, ctx)
+    ctx.attempt(iterator_state, ctx)
     ctx.floor("CMP.admit", 3)
     ctx.floor("PATH.row-conservation", 8)
     ctx.floor("KP", 4)
@@ -412,6 +414,85 @@ def _within(node, root) -> bool:
     if root is None:
         return False
     return any(n is node for n in ast.walk(root))
+
+
+BROAD = {"ValueError", "Exception", "BaseException"}
+
+
+def h3_guard(ctx: Ctx):
+    """'... and never stopping the run': a key of the price table that is neither a station of the scenario nor a usable
+    region is skipped. The h3 library signals a bad key with ValueError (int(k, 16) for a key that is not hex) or its own
+    subclass H3ValueError, so every h3 call made on a table key sits inside a try whose handler catches ValueError or
+    broader; a handler narrowed to the subclass lets the plain ValueError escape and end the run."""
+    from ..loader import fq_dotted
+    fn = ctx.repo.func(CPU, "_map_to_station_ids")
+    n = 0
+    for c in ast.walk(fn.node):
+        if not (isinstance(c, ast.Call) and (fq_dotted(fn.module, c.func) or "").startswith("h3.")):
+            continue
+        n += 1
+        t = parent(c)
+        guard = None
+        while t is not None and t is not fn.node:
+            par = parent(t)
+            if isinstance(par, ast.Try) and t in par.body:
+                guard = par
+                break
+            t = par
+        ok = False
+        caught = []
+        if guard is not None:
+            for h in guard.handlers:
+                if h.type is None:
+                    ok = True
+                    caught.append("<bare>")
+                else:
+                    names = [(dotted(x) or "").split(".")[-1] for x in (h.type.elts if isinstance(h.type, ast.Tuple) else [h.type])]
+                    caught += names
+                    if BROAD & set(names):
+                        ok = True
+        ctx.check(ok, "D5", "EX.h3-guard", f"_map_to_station_ids: {flow.dump(c.func)}(...) on a table key is guarded against ValueError", fn, c,
+                  why_bad=f"enclosing handler catches {caught or 'nothing'}: h3 raises a plain ValueError for a key that is not hexadecimal (an unknown station id such as 'depot_9'), "
+                          f"which now escapes ChargingPriceUpdate.update and stops the run",
+                  construct=f"_map_to_station_ids:h3-unguarded:{flow.dump(c.func)}")
+    ctx.require(n >= 2, f"_map_to_station_ids: only {n} h3 calls found")
+
+
+ITER_STATE = {  # the attributes through which DictReaderIterator / DictReaderStepper carry state between calls (PATH rules model these)
+    "DictReaderIterator": {"reader", "history", "step_column_name", "stop_condition", "parser"},
+}
+
+
+def iterator_state(ctx: Ctx):
+    """The path rule on DictReaderIterator.__next__ (every row is returned or kept in `history`, compared by ITS OWN step value)
+    models the iterator's state as the attributes listed above. An attribute the model does not know is state the rule cannot
+    account for: a value cached next to `history` that outlives the row it was parsed from releases later rows at the wrong
+    time. The held-over row's step value must be parsed from that row on the path that compares it."""
+    repo = ctx.repo
+    for cname, known in ITER_STATE.items():
+        c = repo.cls(IT, cname)
+        seen = set()
+        for f in c.methods.values():
+            for n in ast.walk(f.node):
+                if isinstance(n, ast.Attribute) and isinstance(n.ctx, ast.Store) and isinstance(n.value, ast.Name) and n.value.id == "self":
+                    seen.add(n.attr)
+                    if n.attr not in known:
+                        ctx.violation("D2", "PATH.iterator-state", f"{cname}.{f.name} keeps state in self.{n.attr}", f, n,
+                                      why=f"`{n.attr}` is carried between calls next to the held-over row but is not one of {sorted(known)}: nothing ties its lifetime to the row it was "
+                                          f"computed from, so a later held-over row can be compared with an earlier row's value and enter the simulation before its time",
+                                      construct=f"{cname}:extra-state:{n.attr}")
+        ctx.check(known & seen == known & seen, "D2", "PATH.iterator-state", f"{cname}: state attributes are {sorted(seen)}", c.methods.get("__next__") or c.methods.get("__init__"))
+    nx = repo.func(IT, "DictReaderIterator.__next__")
+    n = 0
+    for p in flow.paths(nx.node):
+        for e in p.events:
+            if e.name == "stop_condition" and not e.deferred and e.call.args:
+                n += 1
+                arg = flow.dump(e.call.args[0])
+                ok = arg in ("self.parser(self.history[self.step_column_name])", "self.parser(next(self.reader)[self.step_column_name])") or arg.startswith("self.parser(")
+                ctx.check(ok, "D2", "PATH.iterator-state", "the stop condition is evaluated on the step value parsed from the row at hand", nx, e.raw,
+                          why_bad=f"compares {arg[:100]}", construct="DictReaderIterator.__next__:stale-step-value")
+    ctx.require(n >= 2, f"DictReaderIterator.__next__: only {n} stop_condition evaluations found")
 
 
 def selftest():
